@@ -68,6 +68,10 @@ def ensure(cfg, log=sys.stderr):
     out = os.path.join(CACHE, key, cfg)
     marker = os.path.join(out, "OK")
     if os.path.exists(marker):
+        try:
+            os.utime(os.path.join(CACHE, key))
+        except OSError:
+            pass
         return out
     os.makedirs(os.path.join(CACHE, key), exist_ok=True)
     os.makedirs(WORK, exist_ok=True)
@@ -118,13 +122,13 @@ def ensure(cfg, log=sys.stderr):
 
 
 def _prune(keep):
-    """keep the cache small: retain the 4 most recent tree keys."""
+    """keep the cache small: retain the 10 most recently used tree keys."""
     try:
         ents = [(os.path.getmtime(os.path.join(CACHE, d)), d) for d in os.listdir(CACHE)]
     except OSError:
         return
     ents.sort(reverse=True)
-    for _, d in ents[4:]:
+    for _, d in ents[10:]:
         if d != keep:
             shutil.rmtree(os.path.join(CACHE, d), ignore_errors=True)
 
